@@ -142,7 +142,8 @@ impl Scenario {
             .set("short_write_pct", J::Int(p.short_write_pct as i64))
             .set("write_eintr_pct", J::Int(p.write_eintr_pct as i64))
             .set("sigint_at", J::Arr(p.sigint_at.iter().map(|x| J::Int(*x as i64)).collect()))
-            .set("tick_budget", J::Int(p.tick_budget as i64));
+            .set("tick_budget", J::Int(p.tick_budget as i64))
+            .set("read_error_at", J::Int(p.read_error_at));
         let mut o = J::obj()
             .set("property", J::str(&self.prop))
             .set("verif_seed", J::Str(self.seed.to_string()))
@@ -212,6 +213,7 @@ impl Scenario {
                     .map(|a| a.iter().filter_map(|x| x.as_i64().map(|y| y as u32)).collect())
                     .unwrap_or_default(),
                 tick_budget: gi("tick_budget") as u64,
+                read_error_at: p.get("read_error_at").and_then(|x| x.as_i64()).unwrap_or(-1),
             };
         }
         Ok(s)
